@@ -16,6 +16,7 @@ Op lines (K, V, S, E hex: lowercase, `e` = empty, `-` = nil; N, I decimal):
                                  reads of the working tree (err:poisoned after a failed save)
   at N <read>                    the same read on saved version N | err:noversion
   export N                       -> <hash> <size> of import(export(version N)) | err:noversion | err:emptytree   (C24 only)
+  use N                          -> ok            (C24 only, first op of a case: number of harness configurations; ignored by the model)
 
 Anything else: err:badop, state unchanged.  Long outputs are clipped (`clip`).
 C24 accepts `load N` only for the latest two versions (every pruning
@@ -141,6 +142,12 @@ def step (B : Nat) (c24 : Bool) (st : St) (toks : List String) : St × String :=
     if c24 ∨ !st.fresh then bad else
     match parseUnsigned c 1048576 with
     | some _ => if f == "0" ∨ f == "1" then (st, "ok") else bad
+    | none => bad
+  | ["use", n] =>
+    -- C24: the case runs on the first `n` of the harness's 54 configurations
+    if !c24 ∨ !st.fresh then bad else
+    match parseUnsigned n 2147483648 with
+    | some n => if n < 1 ∨ n > 54 then bad else (st, "ok")
     | none => bad
   | ["set", k, v] =>
     match hexOpt k, hexOpt v with
